@@ -3,7 +3,19 @@
 use std::io::{BufRead, Write};
 
 fn main() {
-    std::panic::set_hook(Box::new(|_| {}));
+    // remember where the last panic happened (the payload alone does not say)
+    static LAST: std::sync::Mutex<String> = std::sync::Mutex::new(String::new());
+    if std::env::var("VERIF_DEFAULT_HOOK").is_err() {
+    std::panic::set_hook(Box::new(|info| {
+        if let Some(l) = info.location() {
+            if let Ok(mut g) = LAST.lock() {
+                if l.file().contains("/repo/") {
+                    *g = format!("{}:{}", l.file().rsplit("/repo/").next().unwrap_or(l.file()), l.line());
+                }
+            }
+        }
+    }));
+    }
     let suites = verif_harness::suites();
     let stdin = std::io::stdin();
     let stdout = std::io::stdout();
@@ -37,7 +49,8 @@ fn main() {
                         } else {
                             "?".to_string()
                         };
-                        writeln!(out, "PANIC {}", msg.replace('\n', " ")).unwrap();
+                        let at = LAST.lock().map(|g| g.clone()).unwrap_or_default();
+                        writeln!(out, "PANIC {} @ {}", msg.replace('\n', " "), at).unwrap();
                     }
                 }
             }
